@@ -65,7 +65,7 @@ def build_cases(tier):
                 d = DEFAULTS[t] if i < 2 else "[]"
                 q = f"query V($x: {vt}{' = ' + d if dflt else ''}) {{ f_{t}_{i}(x: $x) }}\n"
                 cfgs = [{}]
-                if i in (0, 5) or tier != "quick":
+                if i in (0, 5, 13) or t in ("In", "Rec") or tier != "quick":
                     cfgs += [{"async_client": False}, {"convert_to_snake_case": False}]
                 for cfg in cfgs:
                     cases.append(dict(kind="typed", query=q, op="V", vars=[("x", vt, dflt)], options=cfg,
@@ -112,7 +112,7 @@ def evaluate(case):
         for vn, vt, dflt in vars_:
             t = type_of(schema, vt)
             m = inputs.menu(t, depth=2)
-            cap = case.get("menu_cap", 14)
+            cap = case.get("menu_cap", 14 if "In" not in vt and "Rec" not in vt else 48)
             m = m[:cap]
             from graphql import is_non_null_type
             required = is_non_null_type(t) and not dflt
